@@ -129,6 +129,10 @@ func runMdIn(c Case, emit Emitter) {
 			}
 			cc := mdiNewConc(seed + int64(c.ID)*7 + int64(i))
 			md := cc.markdown(ast)
+			// line-ending class: CommonMark treats LF and CRLF alike; every third concretisation is written with CRLF
+			if (seed+int64(c.ID)+int64(i))%3 == 1 {
+				md = strings.ReplaceAll(md, "\n", "\r\n")
+			}
 			var co *markdown.ConvertOptions
 			if op.Str("co") == "same" {
 				co = mdiOptions(cur)
